@@ -267,6 +267,13 @@ def _module_tables(mod):
             if isinstance(st, ast.Assign) and len(st.targets) == 1 and isinstance(st.targets[0], ast.Name) and is_table(st.value):
                 for recv in ("self", "cls", cname):
                     out.add("%s.%s" % (recv, st.targets[0].id))
+        # per-instance tables: `self.NAME = {}` in __init__
+        init = mod.functions.get(cname + ".__init__")
+        if init is not None:
+            for st in ast.walk(init):
+                if isinstance(st, ast.Assign) and len(st.targets) == 1 and isinstance(st.targets[0], ast.Attribute) and dotted(st.targets[0].value) == "self" and is_table(st.value) \
+                        and isinstance(st.value, (ast.Dict, ast.Call)) and not (isinstance(st.value, ast.Dict) and st.value.keys):
+                    out.add("self.%s" % st.targets[0].attr)
     return out
 
 
@@ -320,6 +327,15 @@ def global_table_caches(ctx, modname):
                     if isinstance(x, ast.Name) and isinstance(x.ctx, ast.Load) and x.id in ps and id(x) not in key_nodes:
                         used.add(x.id)
             missing = sorted(used - covered)
+            # fields of a record: a value computed from record["a"] under a key built from record["b"] is not determined by its key
+            if dict_stores:
+                vidx, kidx = set(), set()
+                for n, x in dict_stores:
+                    vidx |= {o for o in origins(fn, n.id, n.ast.value) if o.startswith("index:'")}
+                for n, k in reads + writes:
+                    kidx |= {o for o in origins(fn, n.id, k) if o.startswith("index:'")}
+                if kidx and vidx - kidx:
+                    missing = missing + ["record field %s (the key is built from %s)" % (", ".join(sorted(o[6:] for o in vidx - kidx)), ", ".join(sorted(o[6:] for o in kidx)))]
             # the receiver: a method whose cached value is computed from `self` must key the table by the whole receiver.
             # `self`, `self.sec()`, `id(self)`, or both coordinates identify it; `self.xonly()` / `self.x` alone identify a point
             # only up to its sign (P and -P share an x), `self.hash160()` etc. are fine (injective encodings of the whole object)
